@@ -100,7 +100,9 @@ def table_df(tab):
 
 # example rows are deliberately far away from any generated value: if an example
 # ever leaks into a result, the comparison sees it
-_EX = {'x': [1024.5, -2048.25, 512.125], 'y': [101, 103, 107], 'g': ['zz', 'zy', 'zz'], 'h': [55, 56, 55], 't': [100000, 100001, 100003]}
+# (and every upstream filter the checks use lets at least two of them through)
+_EX = {'x': [1024.5, -2048.25, 512.125, -4096.5], 'y': [101, -103, 107, -109], 'g': ['zz', 'zy', 'zz', 'zy'],
+       'h': [55, 56, 55, 56], 't': [100000, 100001, 100003, 100003]}
 
 
 def example_df(tab, ex):
